@@ -63,11 +63,11 @@ impl TypeUrl for cosmos::staking::v1beta1::MsgBeginRedelegate {
 }
 
 impl TypeUrl for cosmos::base::abci::v1beta1::MsgData {
-    const TYPE_URL: &'static str = "/cosmos.base.v1beta1.abci.MsgData";
+    const TYPE_URL: &'static str = "/cosmos.base.abci.v1beta1.MsgData";
 }
 
 impl TypeUrl for cosmos::base::abci::v1beta1::TxMsgData {
-    const TYPE_URL: &'static str = "/cosmos.base.v1beta1.abci.TxMsgData";
+    const TYPE_URL: &'static str = "/cosmos.base.abci.v1beta1.TxMsgData";
 }
 
 impl TypeUrl for cosmos::auth::v1beta1::BaseAccount {
